@@ -158,11 +158,13 @@ theorem handled_session_is_the_peers (st : St) (p : Peer) :
 
 /-- Exactly one session-new event per session ever created, at most one session-deleted event, never a deleted event
 without (or before the only) new event; a live session has had its new event and no deleted event, a session that is
-gone has had exactly as many deleted as new events. -/
+gone has had exactly as many deleted as new events — unless it ended as a CLIENT session (`handed`, M's ghost record of
+`coap_session_release` freeing a session the application had taken over with coap_session_set_type_client: libcoap
+raises no SERVER_SESSION_DEL for it, it is no server session any more): deleted + handed = new. -/
 theorem one_new_one_del_per_session {st : St} (h : Reachable st) (x : Nat) :
     st.events.count (.new x) ≤ 1 ∧ st.events.count (.del x) ≤ st.events.count (.new x) ∧
-    (x ∈ st.sids → st.events.count (.new x) = 1 ∧ st.events.count (.del x) = 0) ∧
-    (x ∉ st.sids → st.events.count (.del x) = st.events.count (.new x)) := by
+    (x ∈ st.sids → st.events.count (.new x) = 1 ∧ st.events.count (.del x) = 0 ∧ st.events.count (.handed x) = 0) ∧
+    (x ∉ st.sids → st.events.count (.del x) + st.events.count (.handed x) = st.events.count (.new x)) := by
   have hS := (reachable_inv h).S
   by_cases hx : x ∈ st.sids
   · have := hS.evLive x hx
@@ -268,7 +270,7 @@ theorem oldest_idle_evicted_at_limit {st : St} (h : Reachable st) (p : Peer) (hl
   constructor
   · simp [St.newSession, freeSess, St.dropPartial]
   · intro s hs
-    have hs' : s ∈ st.sessions.filter (fun t => t.sid ≠ o.sid) ++ [(⟨st.next, st.nsess, p, 0, st.now, 0, 0, 0, false, 0⟩ : Sess)] := hs
+    have hs' : s ∈ st.sessions.filter (fun t => t.sid ≠ o.sid) ++ [(⟨st.next, st.nsess, p, 0, st.now, 0, 0, 0, false, 0, false⟩ : Sess)] := hs
     rcases List.mem_append.mp hs' with h1 | h1
     · simpa using (List.mem_filter.mp h1).2
     · simp only [List.mem_singleton] at h1; subst h1
@@ -437,7 +439,7 @@ theorem referenced_session_survives_pass {st : St} (h : Reachable st) (now : Nat
     simp at this
     exact hr this.1
   have hI' : Inv (st.prepareIoAt now) := Inv.closed.prepareIoAt (reachable_inv h) now
-  exact ⟨hk, (hI'.S.evLive t.sid (List.mem_map.mpr ⟨t, hk, rfl⟩)).2⟩
+  exact ⟨hk, (hI'.S.evLive t.sid (List.mem_map.mpr ⟨t, hk, rfl⟩)).2.1⟩
 
 /-- A session with an open connection that was used at or after the `now` of the pass (its `last_rx_tx ≥ now`: e.g. the
 delayed response of a slow handler has just been sent on it and its async entry — the only reference — has been dropped)
@@ -457,7 +459,7 @@ theorem session_used_after_now_survives {st : St} (h : Reachable st) (now : Nat)
       · rw [ho] at h2; cases h2)
   refine ⟨hk, ?_⟩
   have hI' : Inv (st.prepareIoAt now) := Inv.closed.prepareIoAt (reachable_inv h) now
-  exact (hI'.S.evLive t.sid (List.mem_map.mpr ⟨t, hk, rfl⟩)).2
+  exact (hI'.S.evLive t.sid (List.mem_map.mpr ⟨t, hk, rfl⟩)).2.1
 
 /-! ### what hangs off a session goes with it -/
 
@@ -483,6 +485,134 @@ theorem reclaim_releases_partial_pdu {st : St} (h : Reachable st) (s : Sess) (hs
   intro u hu
   have hu' : u ∈ st.sessions.filter (fun x => x.sid ≠ s.sid) := hu
   simpa using (List.mem_filter.mp hu').2
+
+/-! ### call home: a server session the application takes over as a client session (seed C12-17) -/
+
+/-- `coap_session_set_type_client(session)` on a SERVER datagram session takes exactly ONE reference, and the application
+holds it: the holders grow by the application's call-home token, the session's reference count grows by one and its type
+becomes CLIENT; every other session is untouched; nothing is allocated, freed or announced — the session stays where it
+is, in its endpoint's table. -/
+theorem call_home_takes_one_reference (st : St) (p : Peer) (s : Sess) (hf : st.freed = false) (hl : st.lookup p = some s)
+    (hc : s.client = false) (hr : p.reliable = false) :
+    (st.step (.callHome p)).1.holders = st.holders ++ [⟨0, s.sid, .home⟩] ∧
+    (st.step (.callHome p)).1.sessions =
+      st.sessions.map (fun t => if t.sid = s.sid then { t with client := true, ref := t.ref + 1 } else t) ∧
+    (st.step (.callHome p)).1.ledger = st.ledger ∧ (st.step (.callHome p)).1.events = st.events := by
+  unfold St.step
+  simp only [hf, Bool.false_eq_true, if_false, hl, hc, hr, Bool.or_self]
+  refine ⟨by simp [St.addHolder, HKind.isAlloc], ?_, by simp [St.addHolder, HKind.isAlloc, St.updSess],
+    by simp [St.addHolder, HKind.isAlloc, St.updSess]⟩
+  simp only [St.addHolder, HKind.isAlloc, Bool.false_eq_true, if_false, St.updSess, List.map_map]
+  apply List.map_congr_left
+  intro t _
+  by_cases e : t.sid = s.sid <;> simp [e, Sess.reference]
+
+/-- `coap_session_release_lkd` frees nothing on a SERVER session (it idles at 0 and waits for the timeout / the idle limit /
+the teardown) and nothing while a reference is left: the free at its end is the identity on such a session. -/
+theorem release_frees_only_unreferenced_client_sessions {st : St} (h : Reachable st) (s : Sess) (hs : s ∈ st.sessions)
+    (hc : s.client = false ∨ s.ref ≠ 0) : st.clientFree s.sid = st := by
+  have hg := getSess_of_mem (reachable_inv h).S hs
+  unfold St.clientFree
+  rcases hc with hc | hc <;> simp [hg, hc]
+
+/-- … and on a CLIENT session whose last reference has just gone it is `coap_session_free`: what hangs off the session is
+released, the session is UNLINKED FROM THE TABLE IT LIVES IN — its endpoint's, whatever `session->type` says — and
+freed exactly once; no SERVER_SESSION_DEL is raised (the ghost event `handed` records the end). -/
+theorem client_free_releases_and_unlinks {st : St} (hS : SInv st) (s : Sess) (hs : s ∈ st.sessions) (hr : s.ref = 0)
+    (hc : s.client = true) :
+    (st.clientFree s.sid).ledger =
+      st.ledger ++ ((st.partials.filter (fun x => x.2 == s.sid)).map fun x => .free x.1) ++ [.free s.sid] ∧
+    (st.clientFree s.sid).partials = st.partials.filter (fun x => x.2 != s.sid) ∧
+    (st.clientFree s.sid).sessions = st.sessions.filter (fun t => t.sid ≠ s.sid) ∧
+    (st.clientFree s.sid).events = st.events ++ [.handed s.sid] ∧
+    (st.clientFree s.sid).holders = st.holders := by
+  have hg := getSess_of_mem hS hs
+  unfold St.clientFree
+  simp only [hg, hr, hc, ne_eq, not_true_eq_false, Bool.not_true, Bool.or_self, Bool.false_eq_true, decide_false, if_false]
+  refine ⟨?_, ?_, ?_, ?_, ?_⟩ <;> first | rfl | trivial
+
+/-- The end of a call-home session (D16: the application lets go last — `ref = 1`, its own token): after
+`coap_session_release(session)` the session is in NO table any more — the peer has no session, so its next datagram is
+served by a fresh one (`St.getSession` with `lookup = none`) —, no holder points at it, the only holder that went is the
+application's token, the ledger grew by exactly the frees of what hung off the session and ONE free of the session, and
+no session-deleted event was raised.  (That the ledger of the WHOLE history is accepted by `ledgerOk` after
+`coap_free_context` — nothing freed twice, nothing left — is `teardown_ledger_empty`, which holds for histories with
+call-home events like for all others.) -/
+theorem end_call_home_frees_and_unlinks {st : St} (h : Reachable st) (p : Peer) (s : Sess) (x : Holder)
+    (hf : st.freed = false) (hl : st.lookup p = some s) (hx : st.findHolder s.sid isHome = some x) (hr : s.ref = 1)
+    (hc : s.client = true) :
+    (st.step (.endCallHome p)).1.lookup p = none ∧
+    (∀ t, t ∈ (st.step (.endCallHome p)).1.sessions ↔ t ∈ st.sessions ∧ t.sid ≠ s.sid) ∧
+    (st.step (.endCallHome p)).1.holders = st.holders.erase x ∧
+    (∀ y ∈ (st.step (.endCallHome p)).1.holders, y.sid ≠ s.sid) ∧
+    (st.step (.endCallHome p)).1.ledger =
+      st.ledger ++ ((st.partials.filter (fun y => y.2 == s.sid)).map fun y => .free y.1) ++ [.free s.sid] ∧
+    (st.step (.endCallHome p)).1.events = st.events ++ [.handed s.sid] := by
+  have hI := reachable_inv h
+  have hI' : Inv (st.step (.endCallHome p)).1 := Inv.closed.step hI _
+  obtain ⟨hsm, hsp⟩ := lookup_some hl
+  obtain ⟨hxm, hxs, _⟩ := findHolder_some hx
+  have hstep : (st.step (.endCallHome p)).1 = (st.dropHolder x).clientFree s.sid := by
+    unfold St.step
+    simp only [hf, Bool.false_eq_true, if_false, hl, hx, hr, ne_eq, not_true_eq_false]
+  rw [hstep] at hI' ⊢
+  have hI1 : Inv (st.dropHolder x) := Inv.closed.dropHolder _ _ hI
+  -- the session after the release
+  have hd : st.dropHolder x = { (st.updSess s.sid Sess.release) with
+      holders := st.holders.erase x, ledger := st.ledger } := by
+    unfold St.dropHolder; simp [hxm, hxs, (show x.kind.isAlloc = false by
+      cases hk : x.kind <;> simp_all [isHome, HKind.isAlloc])]
+  have hs1 : Sess.release s ∈ (st.dropHolder x).sessions := by
+    rw [hd]; exact mem_updSess.mpr ⟨s, hsm, by simp⟩
+  have hcf := client_free_releases_and_unlinks hI1.S (Sess.release s) hs1 (by simp [Sess.release, hr])
+    (by simp [Sess.release, hc])
+  have hsid : (Sess.release s).sid = s.sid := rfl
+  rw [hsid] at hcf
+  obtain ⟨hL, _, hSs, hE, hH⟩ := hcf
+  have hmem : ∀ t, t ∈ ((st.dropHolder x).clientFree s.sid).sessions ↔ t ∈ st.sessions ∧ t.sid ≠ s.sid := by
+    intro t
+    rw [hSs, List.mem_filter, hd]
+    constructor
+    · rintro ⟨ht, hne⟩
+      obtain ⟨u, hu, e⟩ := mem_updSess.mp ht
+      have hne' : t.sid ≠ s.sid := by simpa using hne
+      by_cases c : u.sid = s.sid
+      · rw [if_pos c] at e; subst e; exact absurd c hne'
+      · rw [if_neg c] at e; subst e; exact ⟨hu, hne'⟩
+    · rintro ⟨ht, hne⟩
+      exact ⟨mem_updSess.mpr ⟨t, ht, by simp [hne]⟩, by simpa using hne⟩
+  have hnone : ∀ t ∈ ((st.dropHolder x).clientFree s.sid).sessions, t.sid ≠ s.sid := fun t ht => ((hmem t).mp ht).2
+  refine ⟨?_, hmem, ?_, ?_, ?_, ?_⟩
+  · unfold St.lookup
+    rw [List.find?_eq_none]
+    intro t ht
+    obtain ⟨htm, hne⟩ := (hmem t).mp ht
+    rcases pairwise_mem hI.S.pw htm hsm with e | r | r
+    · subst e; exact absurd rfl hne
+    · simpa [hsp] using r.1
+    · simpa [hsp] using fun e : t.peer = p => r.1 (e ▸ hsp)
+  · rw [hH, hd]
+  · intro y hy e
+    obtain ⟨t, ht, e'⟩ := hI'.H.live y hy
+    exact hnone t ht (e'.trans e)
+  · rw [hL, hd]; rfl
+  · rw [hE, hd]; rfl
+
+/-- A session the application has taken over is never reclaimed by an I/O pass, however long it is idle (the reclamation
+walk and the idle accounting are for `type == COAP_SESSION_TYPE_SERVER`): it is the application's to end. -/
+theorem client_session_survives_pass {st : St} (h : Reachable st) (now : Nat) (t : Sess)
+    (ht : t ∈ (st.preReclaim now).sessions) (hc : t.client = true) :
+    t ∈ (st.prepareIoAt now).sessions ∧ (st.prepareIoAt now).events.count (.del t.sid) = 0 := by
+  have hI : Inv (st.preReclaim now) := Inv.closed.preReclaim (reachable_inv h) now
+  have hk : t ∈ (st.prepareIoAt now).sessions := by
+    apply reclaimPass_keeps hI now ht
+    intro hx
+    have := hx.1
+    unfold Sess.idle at this
+    simp [hc] at this
+  have hI' : Inv (st.prepareIoAt now) := Inv.closed.prepareIoAt (reachable_inv h) now
+  exact ⟨hk, (hI'.S.evLive t.sid (List.mem_map.mpr ⟨t, hk, rfl⟩)).2.1⟩
+
 
 /-! ### non-vacuity: concrete histories -/
 
@@ -617,12 +747,12 @@ holders and every reference count are unchanged; the new node hangs off the sess
 `partial_pdu_hangs_off_live_session` its session is live and by `reclaim_releases_partial_pdu` / `teardown_state_empty`
 it is released with it), and the session is not idle any more (`delayqueue != NULL`). -/
 theorem delayed_send_takes_no_reference (st : St) (p : Peer) (s : Sess) (hf : st.freed = false) (hl : st.lookup p = some s)
-    (hr : s.peer.reliable = false) (hc : s.conActive ≥ NSTART) :
+    (hr : s.peer.reliable = false) (hcl : s.client = false) (hc : s.conActive ≥ NSTART) :
     (st.step (.sendCon p)).1.holders = st.holders ∧
     (st.step (.sendCon p)).1.sessions.map (fun t => (t.sid, t.ref)) = st.sessions.map (fun t => (t.sid, t.ref)) ∧
     (st.step (.sendCon p)).1.partials = st.partials ++ [(st.next, s.sid)] := by
   unfold St.step
-  simp only [hf, Bool.false_eq_true, if_false, hl, hr, hc, if_true]
+  simp only [hf, Bool.false_eq_true, if_false, hl, hr, hcl, Bool.or_self, hc, if_true]
   refine ⟨rfl, ?_, rfl⟩
   simp only [St.addPartial, St.updSess, List.map_map]
   apply List.map_congr_left
@@ -674,6 +804,35 @@ example : let st := st0.run [.setTimeout 1, .rx pA .plain, .sendCon pA, .sendCon
 example : let st := st0.run [.rx pA .plain, .sendCon pA]
     (st.lookup pA).map (fun s => (s.peer.reliable, decide (s.conActive ≥ NSTART))) = some (false, true) := by decide
 example : (10, 8) ∈ (st0.run [.rx pA .plain, .sendCon pA, .sendCon pA]).partials := by decide
+
+/-! call home (seed C12-17): a request creates the session, the application takes it over and lets go again -/
+example : let st := st0.run [.rx pA .plain, .callHome pA]
+    st.sessions.map (fun s => (s.ref, s.client)) = [(1, true)] ∧ st.holders.map (·.kind) = [.home] ∧ st.events = [.new 8] := by
+  decide
+/-- the hypotheses of `end_call_home_frees_and_unlinks` are satisfiable -/
+example : let st := st0.run [.rx pA .plain, .callHome pA]
+    st.freed = false ∧
+    (st.lookup pA).map (fun s => (s.ref, s.client, (st.findHolder s.sid isHome).isSome)) = some (1, true, true) := by decide
+/-- … and its conclusion on that history: the table is empty, ONE free of the session, no session-deleted event -/
+example : let st := st0.run [.rx pA .plain, .callHome pA, .endCallHome pA]
+    st.sessions = [] ∧ st.holders = [] ∧ st.events = [.new 8, .handed 8] ∧ st.ledger.count (.free 8) = 1 := by decide
+/-- the peer's next datagram gets a FRESH session, and the whole ledger is accepted after teardown -/
+example : let st := st0.run [.rx pA .plain, .callHome pA, .endCallHome pA, .rx pA .plain, .freeContext]
+    st.events = [.new 8, .handed 8, .new 9, .del 9] ∧ ledgerOk st.ledger = true := by decide
+/-- D16: while an observation refers to the session the application does not end it; after the deregistration it does -/
+example : let st := st0.run [.rx pA (.obsReg 0 0 0), .callHome pA, .endCallHome pA]
+    st.sessions.map (fun s => (s.ref, s.client)) = [(2, true)] := by decide
+example : (st0.run [.rx pA (.obsReg 0 0 0), .callHome pA, .endCallHome pA, .rx pA (.obsDereg 0 0 0), .endCallHome pA]).sessions = [] := by
+  decide
+/-- a call-home session is not reclaimed by the session timeout; at teardown it is deleted like every session of the table;
+    a second coap_session_set_type_client, a ping and a coap_send on it are refused -/
+example : let st := st0.run [.rx pA .plain, .callHome pA, .callHome pA, .ping pA, .sendCon pA, .advance 400000, .io]
+    st.sessions.map (fun s => (s.ref, s.client)) = [(1, true)] ∧ st.holders.length = 1 := by decide
+example : let st := st0.run [.rx pA .plain, .callHome pA, .advance 400000, .io, .freeContext]
+    st.events = [.new 8, .del 8] ∧ ledgerOk st.ledger = true := by decide
+/-- the hypotheses of `release_frees_only_unreferenced_client_sessions` / `client_session_survives_pass` / `call_home_takes_one_reference` -/
+example : let st := st0.run [.rx pA .plain, .appRef pA, .appRelease pA]
+    st.sessions.map (fun s => (s.ref, s.client)) = [(0, false)] ∧ (st.clientFree 8).sessions = st.sessions := by decide
 
 /-- the monitor rejects a double free, a free of something unallocated and a leak -/
 example : ledgerOk [.alloc 1, .free 1, .free 1] = false ∧ ledgerOk [.free 7] = false ∧ ledgerOk [.alloc 1] = false ∧
